@@ -10,7 +10,16 @@ real TemporaryFile) and the real ReadOnlyFileBasedBuffer are driven side by
 side with the extracted model and compared after EVERY operation (return value,
 len, representation, overflowed, remain, file position, file content).  The
 search runs the implementation directly against the extracted specification
-and an independent Python byte queue."""
+and an independent Python byte queue.
+
+Operating-system faults (Proof/BuffersFault.v, harness FaultEnv): at every
+operation that changes the representation an exception is injected into
+TemporaryFile() / BytesIO() and into every call of write/seek/tell/read on the
+files involved; the theorem C17_fault_atomicity_partial (constructor faults) and
+the model's step_f are compared with the real code, and the fault specification
+(exception propagates, queue intact, later operations behave) is searched
+directly; three site classes where the unchanged code only keeps the weaker
+guarantee "nothing destroyed" are open known findings."""
 import hashlib
 import json
 
@@ -23,6 +32,7 @@ ASSUMPTIONS = [
     "operations are those the server issues: append, get(numbytes, skip), skip(numbytes >= 0, allow_prune), __len__, getfile, close; prune() is outside the property; the file returned by getfile() is not read or written by the caller while the buffer is still in use",
     "ReadOnlyFileBasedBuffer: seekable wrapped file positioned inside its content, prepare(size) with size None or >= 0, get(numbytes >= -1)",
     "the COPY_BYTES loop of FileBasedBuffer.__init__ is modelled as one whole-file copy (K-buf runs the real loop)",
+    "faults: the model carries the failure of the new file object's construction (FCtor KTmp / KBio) and of the first write of a single-chunk copy loop (FCopyWrite); failures of other file calls are search-only (injected through subclass/wrapper objects around real BytesIO / TemporaryFile); an injected exception is raised before the real call takes effect, partial writes are not simulated",
 ]
 
 
@@ -410,7 +420,26 @@ def replay(data):
     """re-run one replay dict against the code under WAITRESS_REPO; 0 if it no longer fails"""
     path, log = vcommon.build_runner("buffers", "ExtBuffers.v")
     runner = vcommon.Runner(path) if path else None
-    if data.get("kind") == "ro":
+    if data.get("kind") == "fault":
+        h = (data["limit"], data["overflow"], data["ops"])
+        at, f = data["at"], tuple(data["fault"])
+        rows, fired, where = hb.run_faulted(h, at, f)
+        qb = b"" if at == 0 else rows[at - 1][2]
+        v, why = hb.judge_faulted(h, at, f, rows, fired, where, qb)
+        for i, (r, op) in enumerate(zip(rows, [hb.op_line(x)[:40] for x in h[2]])):
+            print("  %-24s -> %s | %s%s" % (op, r[0], r[1], "   <- %s injected into %s.%s call %d (site %s)" % (f[3], f[0], f[1], f[2], where) if i == at else ""))
+        d = None
+        ml = hb.fault_model_lines(h, at, f)
+        if runner is not None and ml is not None and (f[1] == "ctor" or data.get("against") == "model"):
+            d = hb.compare_faulted_model(rows, runner.query(ml))
+        kf_open = {k.get("class") for k in vcommon.known_findings("C17")}
+        if v == "bad" or (v == "weak" and KF_SITE_CLASS.get(where) not in kf_open):
+            d = d or (at + 1, "fault", why, rows[at][0])
+        elif v == "weak":
+            print("verdict weak (known finding %s): %s" % (KF_SITE_CLASS.get(where), why))
+        else:
+            print("verdict %s" % v)
+    elif data.get("kind") == "ro":
         case = (data["filekind"], data["content_hex"], data["pos"], data["size"], data["ops"])
         real, verdict = hb.run_real_ro(case)
         d = None
